@@ -32,8 +32,8 @@ def run(ctx):
     if ctx.thorough:
         x = vf.tlc(ctx, "ConfStore", "ConfStore_inplace.cfg", workers=2, timeout=300, allow_violation=True)
         if x.violated != "Redacted":
-            raise vf.Infra("self-test: ConfStore with RedactOnCopy=FALSE did not violate Redacted")
-        ctx.set("selftest_design_counterexample", "RedactOnCopy=FALSE violates Redacted (design-only)")
+            raise vf.Infra("self-test: the named regression RedactInPlace (RedactOnCopy=FALSE) is no longer detected by Redacted")
+        ctx.set("selftest_regression_detected", "RedactInPlace (RedactOnCopy=FALSE) violates Redacted in the model")
     cf = vf.write_ndjson(ctx.path("secretcases.ndjson"), cases)
     o1 = ctx.path("api.ndjson")
     vf.gotest_ok(ctx, "./internal/api/", "^TestVerif_C07_API$", cases=cf, out=o1)
